@@ -436,6 +436,14 @@ func specials0() map[string]*gs.Schema {
 				{Name: "note", Schema: &gs.Schema{Kind: gs.KString, MinLen: gs.I(2)}}}}}},
 		"WithAddl": {Kind: gs.KObject, Props: []gs.Prop{{Name: "id", Schema: &gs.Schema{Kind: gs.KInteger}, Required: true}, {Name: "name", Schema: str()}},
 			Addl: &gs.Schema{Kind: gs.KInteger, Min: gs.I(1)}},
+		// a definition that is only a reference to another one (an alias), reached through optional and required properties:
+		// the constraints of the target hold at that depth
+		"Address": {Kind: gs.KObject, Props: []gs.Prop{{Name: "zip", Schema: &gs.Schema{Kind: gs.KString, MinLen: gs.I(5)}, Required: true}, {Name: "floor", Schema: &gs.Schema{Kind: gs.KInteger, Min: gs.I(1)}}}},
+		"PostalAddress":  {Kind: gs.KRef, Ref: "Address"},
+		"MailingAddress": {Kind: gs.KRef, Ref: "PostalAddress"},
+		"Customer": {Kind: gs.KObject, Props: []gs.Prop{{Name: "shipping", Schema: &gs.Schema{Kind: gs.KRef, Ref: "PostalAddress"}}, {Name: "billing", Schema: &gs.Schema{Kind: gs.KRef, Ref: "Address"}},
+			{Name: "mailing", Schema: &gs.Schema{Kind: gs.KRef, Ref: "MailingAddress"}}, {Name: "legal", Schema: &gs.Schema{Kind: gs.KRef, Ref: "PostalAddress"}, Required: true},
+			{Name: "others", Schema: &gs.Schema{Kind: gs.KArray, Items: &gs.Schema{Kind: gs.KRef, Ref: "PostalAddress"}}}}},
 		// additionalProperties of container and object types next to declared properties
 		"WithAddlMap": {Kind: gs.KObject, Props: []gs.Prop{{Name: "id", Schema: &gs.Schema{Kind: gs.KInteger}, Required: true}, {Name: "name", Schema: str()}},
 			Addl: &gs.Schema{Kind: gs.KMap, Addl: &gs.Schema{Kind: gs.KInteger}}},
@@ -455,6 +463,11 @@ func specials0() map[string]*gs.Schema {
 		"Dog":    {Kind: gs.KObject, XClass: "com.acme.Dog", AllOf: []*gs.Schema{{Kind: gs.KRef, Ref: "Pet"}, {Kind: gs.KObject, Props: []gs.Prop{{Name: "bark", Schema: str()}}}}},
 		"Cat":    {Kind: gs.KObject, AllOf: []*gs.Schema{{Kind: gs.KRef, Ref: "Pet"}, {Kind: gs.KObject, Props: []gs.Prop{{Name: "lives", Schema: &gs.Schema{Kind: gs.KInteger}}}}}},
 		"Kennel": {Kind: gs.KObject, Props: []gs.Prop{{Name: "resident", Schema: &gs.Schema{Kind: gs.KRef, Ref: "Pet"}}, {Name: "all", Schema: &gs.Schema{Kind: gs.KArray, Items: &gs.Schema{Kind: gs.KRef, Ref: "Pet"}}}}},
+		// additional properties on types that hold polymorphic members (their serializer is the discriminated one)
+		"Scores": {Kind: gs.KObject, Props: []gs.Prop{{Name: "owner", Schema: &gs.Schema{Kind: gs.KRef, Ref: "Pet"}}, {Name: "comment", Schema: str()}},
+			Addl: &gs.Schema{Kind: gs.KInteger}},
+		"Pack": {Kind: gs.KObject, Props: []gs.Prop{{Name: "title", Schema: str(), Required: true}, {Name: "members", Schema: &gs.Schema{Kind: gs.KArray, Items: &gs.Schema{Kind: gs.KRef, Ref: "Pet"}}}},
+			Addl: str()},
 		// bounds whose value is zero are bounds (only the empty string, no item, nothing above zero)
 		"ZeroBounds": {Kind: gs.KObject, Props: []gs.Prop{
 			{Name: "emptyOnly", Schema: &gs.Schema{Kind: gs.KString, MaxLen: gs.I(0)}},
@@ -561,13 +574,16 @@ func main() {
 			{"Kennel", `{"resident":{"petType":"com.acme.Dog","name":"rex","bark":"loud"}}`},
 			{"Kennel", `{"resident":{"petType":"Cat","name":"tom","lives":9},"all":[{"petType":"com.acme.Dog","name":"a","bark":"x"},{"petType":"Cat","name":"b","lives":1}]}`},
 			{"Kennel", `{"all":[]}`},
+			{"Scores", `{"owner":{"petType":"Cat","name":"tom","lives":3},"comment":"c","alpha":1,"beta":2}`},
+			{"Scores", `{"alpha":7}`},
+			{"Pack", `{"title":"p","members":[{"petType":"com.acme.Dog","name":"a","bark":"x"},{"petType":"Cat","name":"b","lives":2}],"x1":"one","x2":"two"}`},
 			{"Dog", `{"petType":"com.acme.Dog","name":"rex","bark":"loud"}`},
 			{"Cat", `{"petType":"Cat","name":"tom","lives":3}`},
 		} {
 			cases = append(cases, tcase{Def: fx.def, Doc: json.RawMessage(fx.doc)})
 		}
 		for _, n := range names {
-			if n == "Pet" || n == "Kennel" || n == "Dog" || n == "Cat" {
+			if n == "Pet" || n == "Kennel" || n == "Dog" || n == "Cat" || n == "Scores" || n == "Pack" {
 				continue
 			}
 			docs := g.Docs(defs[n], defs, 0)
